@@ -290,9 +290,13 @@ def lcd_of_text(pipe, text, flagdeps):
     return out, (max([v["latency"] for v in lcd.values()]) if lcd else 0)
 
 
-def rotation_oracle(ctx, pipe, text, flagdeps, isa, origin, max_rot=None, rots=None):
-    """C14: every rotation of the loop body reports the same set of cycles (as instruction texts) and the same maximum."""
+def rotation_oracle(ctx, pipe, text, flagdeps, isa, origin, max_rot=None, rots=None, fresh=None):
+    """C14: every rotation of the loop body reports the same set of cycles (as instruction texts) and the same maximum.
+    fresh: callable returning a NEW pipeline (new MachineModel / ArchSemantics objects, as every command line run has): each rotation is
+    then analysed on objects that have seen nothing before, so per-object memos filled in line order cannot hide behind a shared model."""
     lines = [l for l in text.split("\n") if l.strip()]
+    if fresh:
+        pipe = fresh()
     base, bmax = lcd_of_text(pipe, "\n".join(lines) + "\n", flagdeps)
     rots = list(range(1, len(lines))) if rots is None else [r % len(lines) for r in rots if r % len(lines)]
     if max_rot and len(rots) > max_rot:
@@ -300,6 +304,8 @@ def rotation_oracle(ctx, pipe, text, flagdeps, isa, origin, max_rot=None, rots=N
     n = 0
     for r in rots:
         rot = lines[r:] + lines[:r]
+        if fresh:
+            pipe = fresh()
         got, gmax = lcd_of_text(pipe, "\n".join(rot) + "\n", flagdeps)
         n += 1
         ctx.count()
